@@ -330,6 +330,11 @@ func runC01(c *core.Ctx) {
 				o.Basics = 35 + r.Intn(30) // recipes that reach more than 32 distinct elements
 			}
 			b := gen.RandomBook(r, o)
+			if i%4 == 1 {
+				if _, nn := relateNames(r, b, nil, nil); nn != "" {
+					c.Count("random_books_with_related_names", 1)
+				}
+			}
 			longest, cyc := model.Chain(b)
 			if cyc || longest >= depthLimit {
 				c.HarnessError(fmt.Sprintf("generator produced chain %d cyclic=%v for limit %d", longest, cyc, depthLimit))
